@@ -214,6 +214,8 @@ def r14_3(ctx):
         tt, tf = be
         none_blocks = [ab for ab, si, rv in aggregates(f, "Option", "None") if ab in f.reachable(tt) and ab not in f.reachable(0, removed_edges=[(nxt, tt)])]
         some_blocks = [ab for ab, si, rv in aggregates(f, "Option", "Some") if ab in f.reachable(tf) and ab not in f.reachable(0, removed_edges=[(nxt, tf)])]
+        # `Instant::now().checked_add(limit)` yields the Option itself (None only where the clock cannot express the deadline: no limit, F52)
+        some_blocks += [cb for cb, ct in f.calls() if mname(ct) in ("Instant::checked_add",) and cb in f.reachable(tf) and cb not in f.reachable(0, removed_edges=[(nxt, tf)])]
         ctx.check(bool(none_blocks) and bool(some_blocks), "zero-unlimited", f.loc(nxt),
                   "limit 0 => no deadline (None); otherwise Some(now + limit)",
                   "the is_zero() edges do not select None / Some(deadline) (zero edge None blocks: %s, non-zero Some blocks: %s)" % (none_blocks, some_blocks))
@@ -680,6 +682,44 @@ def r14_9(ctx):
                   "ends the limited read at once and then runs to completion - the test passes after 3 s with `timeout: 1s`, the document limit is overrun the same way")
 
 
+def r14_11(ctx):
+    """(a) F53: the wait for a previous test case counts against the per-document timeout - the duration handed to sleep / wait_until_path_or_time is the
+    minimum of the configured wait and what is left of the document's time; and what is left for the command is determined *after* the wait (the
+    wait dominates the selection of the effective timeout); (b) F52: the deadline is computed with checked_add (a limit the clock cannot express
+    is no limit, not a panic)"""
+    prog = ctx.prog
+    f = _exec_all(ctx)
+    o = Origins(f)
+    waits = [(bb, t) for bb, t in f.calls() if (mname(t) or "").endswith("thread::sleep") or (callee_name(t) or "").endswith("wait_until_path_or_time") or (callee_name(t) or "").endswith("sleep")]
+    if not waits:
+        raise AnchorError("StatefulExecutor::execute_all: no sleep / wait_until_path_or_time call")
+    for i, (bb, t) in enumerate(waits):
+        arg = o.operand(t["args"][-1])
+        bounded = any(method_name(c).split("::")[-1] in ("min", "map_or", "min_by") for c in arg.call_names()) and \
+            (arg.has_call("Ord::min") or any("min" in method_name(c) for c in arg.call_names()) or _closure_uses_min(prog, f, arg))
+        ctx.check(bounded, "wait-bounded-by-deadline#%d" % i, f.loc(bb), "the wait is the minimum of the configured time and what is left of the document's time",
+                  "the configured wait is slept through in full (%s): `total_timeout: 1s` with `wait: 3s` runs for three seconds" % arg.show()[:80])
+    # the effective timeout is selected after the wait
+    mins = [bb for bb, t in f.calls() if mname(t) in ("Iterator::min", "Iterator::min_by", "Iterator::min_by_key")]
+    ctx.check(bool(mins) and all(any(wb in f.reachable(0, removed_blocks=[mb]) and mb in f.reachable(wb, removed_edges=f.back_edges()) for wb, _ in waits) for mb in mins),
+              "timeout-selected-after-wait", f.loc(mins[0]) if mins else f.where(), "the effective timeout is selected after the wait (what is left is determined then)",
+              "the effective timeout is selected before the wait: the time spent waiting is granted to the command a second time and the document overruns its limit")
+    # (b)
+    adds = [bb for bb, t in f.calls() if mname(t) in ("Add::add", "Instant::add") and "Instant" in (t.get("self_ty") or "")]
+    chk = [bb for bb, t in f.calls() if mname(t) == "Instant::checked_add"]
+    ctx.check(bool(chk) and not adds, "deadline-no-overflow", f.where(), "the deadline is computed with Instant::checked_add",
+              "the deadline is computed with `Instant + Duration`: `--timeout-seconds 18446744073709551615` panics with `overflow when adding duration to instant`")
+
+
+def _closure_uses_min(prog, f, tree):
+    for n in tree.walk():
+        if n.kind == "agg" and isinstance(n.a, tuple) and str(n.a[0]).startswith("closure "):
+            cb = prog.body_by_def(n.a[0][len("closure "):], f.crate)
+            if cb is not None and any((mname(t) or "").split("::")[-1] == "min" for _, t in cb.calls()):
+                return True
+    return False
+
+
 def run(ctx):
     ctx.run_rule("R14.1", "effective timeout: the `min` over Option<Timeout> candidates uses a comparator whose primary key is the Duration (derived Ord => first declared field) [type facts]", r14_1, floor=2)
     ctx.run_rule("R14.2", "the selected timeout is stored into testcase.config.timeout before Runner::run; SubprocessRunner::run passes limit_time(t) on every path on the Some(t) edge [E-FLOW, E-PATH]", r14_2, floor=4)
@@ -692,3 +732,4 @@ def run(ctx):
     ctx.run_rule("R14.6", "Cram: script timeout from the document limit unless zero; per-test timeouts rejected [E-SITE]", r14_6, floor=3)
     from . import c20
     ctx.run_rule("R14.10", "attribution in the Timeout arm: outputs and test cases are zipped positionally (no filter / skip on either side), so the timed-out result lands on the test case that timed out and a command inside its limits is not reported as timed out (shared with C20 R20.4) [E-STATE]", c20.r20_4, floor=7)
+    ctx.run_rule("R14.11", "the wait counts against the document's time (bounded by what is left; the effective timeout is selected after it) and the deadline cannot overflow (F52, F53) [E-FLOW, E-PATH]", r14_11, floor=3)
